@@ -222,9 +222,9 @@
  */
 #define SHA384_512AddLength(context, length) (                        \
     addTemp[3] = (length), SHA512_ADDTO4((context)->Length, addTemp), \
-    (context)->Corrupted = (((context)->Length[3] == 0) &&            \
+    (context)->Corrupted = (((context)->Length[3] < (length)) &&      \
        ((context)->Length[2] == 0) && ((context)->Length[1] == 0) &&  \
-       ((context)->Length[0] < 8)) ? 1 : 0 )
+       ((context)->Length[0] == 0)) ? 1 : 0 )
 
 /* Local Function Prototypes */
 static void SHA384_512Finalize(SHA512Context *context,
